@@ -132,6 +132,26 @@ fn expr_at(cfg: &ExprCfg, depth: u32) -> BoxedStrategy<Expr> {
             2 => spread_operand.prop_map(ArrItem::Spread),
         ];
         alts.push((3, proptest::collection::vec(arr_item, 0..4).prop_map(Expr::Arr).boxed()));
+        // runs of holes in front of / between items (`[, , x]`, `[x, , , y]`): every element behind a run is still visited
+        alts.push((
+            1,
+            (proptest::option::of(sub.clone()), 2usize..4, sub.clone(), any::<bool>())
+                .prop_map(|(lead, holes, item, trailing)| {
+                    let mut v = vec![];
+                    if let Some(l) = lead {
+                        v.push(ArrItem::Item(l));
+                    }
+                    for _ in 0..holes {
+                        v.push(ArrItem::Hole);
+                    }
+                    v.push(ArrItem::Item(item));
+                    if trailing {
+                        v.push(ArrItem::Hole);
+                    }
+                    Expr::Arr(v)
+                })
+                .boxed(),
+        ));
         let key = prop_oneof![Just("a"), Just("b"), Just("k"), Just("x"), Just("item"), Just("index"), Just("$k"), Just("length")].prop_map(|s: &str| s.to_string());
         let short = ident_name(cfg);
         let obj_item = prop_oneof![
